@@ -1,3 +1,3 @@
-import DeepModel.Driver.ConfigSvcCommon
+import DeepModel.Driver.C12Timer
 
-def main : IO Unit := Proto.serve ConfigSvcDriver.handle
+def main : IO Unit := Proto.serve C12TimerDriver.handle
